@@ -176,19 +176,21 @@ class AstAnalyzer:
                     return visit_block(stmt.orelse, live_out)
             if isinstance(stmt, ast.For):
                 p_loop_var = _get_loop_var(stmt, self._formatter)
+                # The loop may execute zero times, so whatever is live after the loop
+                # is also live before it (and at the end of every iteration).
                 prev = None
                 curr = live_out
                 while curr != prev:
                     prev = curr
-                    curr = visit_block(stmt.body, prev).difference({p_loop_var})
-                return curr
+                    curr = visit_block(stmt.body, prev).difference({p_loop_var}) | live_out
+                return curr | _used_vars(stmt.iter)
             if isinstance(stmt, ast.While):
                 cond_vars = _used_vars(stmt.test)
                 prev = None
                 curr = live_out | cond_vars
                 while curr != prev:
                     prev = curr
-                    curr = visit_block(stmt.body, prev) | cond_vars
+                    curr = visit_block(stmt.body, prev) | cond_vars | live_out
                 return curr
             if isinstance(stmt, ast.Break):
                 # The following is sufficient for the current restricted usage, where
